@@ -1,12 +1,12 @@
 SPECIFICATION SimSpec
 CONSTANTS
-  MaxLen = 6
+  MaxLen = 7
   MaxNew = 2
   MaxViews = 3
   InitLens = {0, 1, 2, 3, 4, 5}
   ThLen = 0
   ThIdx = 0
-  SimDepth = 14
+  SimDepth = 15
 INVARIANT Emit
 INVARIANT Distinct
 INVARIANT ExtentOK
